@@ -25,12 +25,18 @@ func (process *Process) SpawnThenTransition(re *RuntimeEnvironment) {
 		re.monitor.MonitorNewProcess(process)
 	}
 
+	if simSpawn(process, re, false) {
+		return
+	}
+
 	go process.transitionLoop(re)
 }
 
 // Entry point for each process transition
 func (process *Process) transitionLoop(re *RuntimeEnvironment) {
 	re.logProcessf(LOGPROCESSING, process, "Process transitioning: %s\n", process.Body.String())
+
+	simStep(process, re)
 
 	// Send heartbeat
 	re.heartbeat <- struct{}{}
@@ -58,7 +64,9 @@ func TransitionBySending(process *Process, toChan chan Message, continuationFunc
 		case <-re.ctx.Done():
 			return
 		default:
+			simBefore(process, re, SimSend, toChan, nil, nil)
 			toChan <- sendingMessage
+			simAfter(process, re, SimDoneData)
 			continuationFunc()
 		}
 	}
@@ -73,12 +81,14 @@ func TransitionByReceiving(process *Process, clientChan chan Message, processMes
 		// Split process if needed
 		process.performDUPrule(re)
 	} else {
+		simBefore(process, re, SimRecv, clientChan, nil, nil)
 		select {
 		case <-re.ctx.Done():
 			// Received cancellation request, then stop
 			return
 		case receivedMessage := <-clientChan:
 			// Blocks until a message arrives (may be a FWD request)
+			simAfter(process, re, SimDoneData)
 
 			// Process acting as a client by consuming a message from some channel
 			if receivedMessage.Rule == FWD {
@@ -145,6 +155,7 @@ func handleNegativeDropRequest(process *Process, re *RuntimeEnvironment) {
 func closeProviders(providers []Name) {
 	for _, p := range providers {
 		if p.Channel != nil {
+			simClose(nil, nil, p)
 			close(p.Channel)
 		}
 	}
@@ -642,7 +653,9 @@ func (f *ForwardForm) Transition(process *Process, re *RuntimeEnvironment) {
 		// ACTIVE
 
 		message := Message{Rule: FWD, Providers: process.Providers}
+		simBefore(process, re, SimSend, f.from_c.Channel, nil, nil)
 		f.from_c.Channel <- message
+		simAfter(process, re, SimDoneData)
 		re.logProcessf(LOGRULE, process, "[forward, client] sent FWD request to client %s\n", f.from_c.String())
 
 		// todo check if this is needed: process.finishedRule(FWD, "[forward, client]", "", re)
@@ -654,7 +667,9 @@ func (f *ForwardForm) Transition(process *Process, re *RuntimeEnvironment) {
 		// PASSIVE: wait before acting
 
 		// Blocks until it received a message
+		simBefore(process, re, SimRecvRaw, f.from_c.Channel, nil, nil)
 		message := <-f.from_c.Channel
+		simAfter(process, re, SimDoneData)
 		re.logProcessf(LOGRULE, process, "[forward, +ve] received message on %s. Will become a %s \n", f.from_c.String(), RuleString[message.Rule])
 
 		// todo: maybe instead of recreating each process, what I can do is check how many providers the
@@ -703,7 +718,9 @@ func (f *ForwardForm) Transition(process *Process, re *RuntimeEnvironment) {
 		// ACTIVE
 
 		message := Message{Rule: GC}
+		simBefore(process, re, SimSend, f.from_c.Channel, nil, nil)
 		f.from_c.Channel <- message
+		simAfter(process, re, SimDoneData)
 		re.logProcessf(LOGRULE, process, "[droppable forward, client] sent GC request to client %s\n", f.from_c.String())
 
 		process.terminateForward(re)
@@ -713,7 +730,9 @@ func (f *ForwardForm) Transition(process *Process, re *RuntimeEnvironment) {
 		// PASSIVE: wait before acting
 
 		// Blocks until it received a message. Then this message will be dropped
+		simBefore(process, re, SimRecvRaw, f.from_c.Channel, nil, nil)
 		message := <-f.from_c.Channel
+		simAfter(process, re, SimDoneData)
 		re.logProcessf(LOGRULE, process, "[droppable forward, +ve] received message on %s [%s]. This message will be dropped \n", f.from_c.String(), RuleString[message.Rule])
 
 		// Need to handle any clients (aka free names) that will be dropped as a result,
@@ -1013,6 +1032,7 @@ func (f *PrintForm) Transition(process *Process, re *RuntimeEnvironment) {
 //	->  renamed/1
 func (process *Process) finishedRule(rule Rule, prefix, suffix string, re *RuntimeEnvironment) {
 	re.logProcessf(LOGRULE, process, "%s finished %s rule %s\n", prefix, RuleString[rule], suffix)
+	simEvent(process, re, SimRule, rule)
 
 	re.heartbeat <- struct{}{}
 
@@ -1033,6 +1053,7 @@ func (process *Process) processRenamed(re *RuntimeEnvironment) {
 // Process will terminate
 func (process *Process) terminate(re *RuntimeEnvironment) {
 	re.logProcess(LOGRULEDETAILS, process, "process terminated successfully")
+	simEvent(process, re, SimTerminated, 0)
 
 	// Send heartbeat
 	re.heartbeat <- struct{}{}
